@@ -32,7 +32,11 @@ PROFILE = {"add_formula_column": 10, "modify_formula": 6, "summary": 4, "update_
            "reverse_column": 1, "update_record": 18, "bulk_update": 8, "remove_record": 8, "bulk_remove": 4,
            "replace_data": 2, "rename_column": 4, "modify_type": 4, "to_formula": 2, "to_data": 1,
            "undo_earlier": 3, "malformed": 2, "trigger_column": 0, "trigger_config": 0, "unhashable_key": 4,
-           "lookup_chain": 14}
+           "lookup_chain": 14,
+           # an OLD undo list replayed on a document that has moved on is a raw application of doc actions: it can
+           # remove a table under its summary table or a column under its references (a document violating C09);
+           # such documents are outside this property's histories, as for C09 / C10 / C11 / C12
+           "stale_undo": 0}
 CFG = {"oracles": (), "n_bundles": 14, "profile": PROFILE, "hook": "gx.props.c05.install", "tie": False}
 
 
@@ -220,6 +224,8 @@ def fresh_oracle(h, rec):
       sig = CIRC_ORDER_SIG % "fresh"
     elif __import__("gx.hist_run", fromlist=["x"]).stale_lookup_only(doc, d):
       sig = STALE_LOOKUP_SIG
+    elif __import__("gx.hist_run", fromlist=["x"]).empty_table_key_change_only(doc, d, rec["actions"]):
+      sig = __import__("gx.hist_run", fromlist=["x"]).EMPTY_KEY_CHANGE_SIG % "fresh"
     h._find(PROP, sig, "; ".join(d[:3]) + " (first=incremental, second=fresh)", rec)
     h._c05_dead = True      # the live engine is known to have diverged: stop judging this history
   # non-trivial: some formula cell changed through a dependency in this bundle
